@@ -29,6 +29,8 @@ def run_case(c):
             fn = os.path.join(d, "p." + c["from_file"])
             (fr.save_fil if c["from_file"] == "fil" else fr.save_h5)(fn)
             fr = stg.Frame(waterfall=fn)
+        if c.get("ts_origin"):
+            fr.ts = fr.ts + c["ts_origin"]
         if c.get("meta_drift") is not None:
             fr.add_metadata({"drift_rate": c["meta_drift"]})
         out["parent"] = dict(t_start=float(fr.t_start), source_name=str(fr.source_name), fs=hexm(fr.fs), ts=hexm(fr.ts), fmin=float(fr.fmin).hex(), data=hexm(fr.data))
